@@ -23,7 +23,9 @@ LEFT = ['', ' ', 'foo ', '\t', '<div>', '<a href="x">', '</p>', '<br/>', '<img s
         # complete tags whose unquoted attribute values hold balanced brackets (JSX expressions, handlers)
         '<div className={styles.foo}>', '<button onclick=go()>', '<i data-x=[1]>', '<a b={c[0]} d=(e)>',
         # runs of blanks inside the tag (column-aligned attributes, a tab, blanks before `/>`)
-        '<div  id=main>', '<ul\t class=nav>', '<br  />', '<input   disabled>']
+        '<div  id=main>', '<ul\t class=nav>', '<br  />', '<input   disabled>',
+        # colons and dashes in tag and attribute names
+        '<svg:rect>', '<a xml:lang=en>', '</xsl:template>', '<button v-on:click="save" disabled>', '<x-y z-w=q>']
 RIGHT = ['', ' bar', '</div>', '<b>']
 BOUNDS = {
     'quick': dict(line=4, line5=False, elements=2),
